@@ -79,7 +79,7 @@ CHECKS['C22'] = dict(
 CHECKS['C05'] = dict(
    engine='kani', category='other', design_ref='DESIGN.md §9.9 C05/C06',
    technique='contract harnesses (Kani/CBMC) on the bindings the real Rust generator produces for a value probe world, the harness acting as the host at the core-ABI boundary with hand-written Canonical-ABI encodings (flat parameters, joined variant slots, return-area layout)',
-   text='PARTIAL and BOUNDED (level "other"): for ONE probe world, export direction. Every generated export trampoline hands the user function exactly the value the host lowered and stores exactly the value the user returned at its canonical offsets: record, tuple, option, result (with both, only an ok, only an error payload type), flags, enum and the numeric cases of a variant with a joined 64-bit-or-pointer slot over their full domains; a variant { f32, u64, f64 } (f32 in a slot widened to i64) over every bit pattern, through an export and through an import; string, list<u8>, list<u32>, list<tuple>, the variant\'s string case, a record with string and list fields, result<string, u32>, list<string>, list<record { u64, string }> (element size with a byte part and a pointer part) and map<string, u32> (second probe world, generated with --map-type) for bounded lengths.',
+   text='PARTIAL and BOUNDED (level "other"): for ONE probe world, export direction. Every generated export trampoline hands the user function exactly the value the host lowered and stores exactly the value the user returned at its canonical offsets: record (incl. one with every scalar kind: bool, char, s8, s16, s64, f32, f64), tuple, option (also nested), result (with both, only an ok, only an error payload type), flags (3 and 32 members), enum and the numeric cases of a variant with a joined 64-bit-or-pointer slot over their full domains; list<string> returned by an import; a variant { f32, u64, f64 } (f32 in a slot widened to i64) over every bit pattern, through an export and through an import; string, list<u8>, list<u32>, list<tuple>, the variant\'s string case, a record with string and list fields, result<string, u32>, list<string>, list<record { u64, string }> (element size with a byte part and a pointer part) and map<string, u32> (second probe world, generated with --map-type) for bounded lengths.',
    note='BOUNDED: list/string lengths 0..=2 (lists of strings / records: list length fixed per obligation at 0, 1 or 2, element strings <= 1 byte), ASCII only; one probe world; one import (the f32 variant), otherwise export direction; async, resources (C07) not driven. The host side is hand-written in the harness from CanonicalABI.md with the 64-bit target\'s pointer size (the generator emits size_of::<*const u8>() offsets, so wasm32 is the same text with P = 4). std UTF-8 validation is a trusted stub.')
 CHECKS['C06'] = dict(
    engine='kani', category='other', design_ref='DESIGN.md §9.9 C05/C06',
@@ -102,7 +102,7 @@ CHECKS['C08'] = dict(
 CHECKS['C10'] = dict(
    engine='cbmc', category='other', design_ref='DESIGN.md §9.14 C10/C11',
    technique='CBMC (wasm32 data model) on the bindings the real C generator produces for a value probe world, the harness acting as the host at the core-ABI boundary with hand-written Canonical-ABI encodings',
-   text='PARTIAL and BOUNDED (level "other"): for ONE probe world, export direction plus one import. Every generated C export wrapper hands the user function exactly the value the host lowered and stores exactly the value the user returned at its canonical offsets (4-byte pointers): record, tuple, option, result (with both, only an ok, only an error payload type), flags, enum and the numeric cases of a variant with a joined slot over their full domains, each under three generator configurations (default, --no-sig-flattening, --string-encoding utf16); a variant { f32, u64, f64 } over every bit pattern through an export and through an import (the host lifting the joined i64 slot as the canonical ABI does); string, list<u32>, list<tuple<u8,u32,u8>>, the variant\'s string case, a record with string and list fields, result<string, u32> and list<string> for bounded lengths.',
+   text='PARTIAL and BOUNDED (level "other"): for ONE probe world, export direction plus one import. Every generated C export wrapper hands the user function exactly the value the host lowered and stores exactly the value the user returned at its canonical offsets (4-byte pointers): record (incl. one with every scalar kind), tuple, option (also nested), result (with both, only an ok, only an error payload type), flags (3 and 32 members), enum and the numeric cases of a variant with a joined slot over their full domains, list<string> returned by an import, each under three generator configurations (default, --no-sig-flattening, --string-encoding utf16); a variant { f32, u64, f64 } over every bit pattern through an export and through an import (the host lifting the joined i64 slot as the canonical ABI does); string, list<u32>, list<tuple<u8,u32,u8>>, the variant\'s string case, a record with string and list fields, result<string, u32> and list<string> for bounded lengths.',
    note='BOUNDED: list/string lengths 0..=2 (list<string>: <= 1 element of <= 1 byte); one probe world; async and resource values not driven. Minimal hand-written ILP32 libc headers (no 32-bit headers in the sandbox); host side hand-written from CanonicalABI.md.')
 CHECKS['C11'] = dict(
    engine='cbmc', category='other', design_ref='DESIGN.md §9.14 C10/C11',
